@@ -13,7 +13,7 @@ void buf_add(buf_t *b, const void *p, size_t n)
         {
             nc *= 2;
         }
-        b->p = realloc(b->p, nc);
+        b->p = h_realloc(b->p, nc);
         if (!b->p)
         {
             fprintf(stderr, "harness: out of memory\n");
